@@ -127,6 +127,47 @@ func overflowFen(r *rng, base string) string {
 	return strings.Join(f, " ")
 }
 
+// en-passant fields that each single test of the loader would let through on its own: the target on the rank of the WRONG side
+// with a pawn of the side not to move right behind it, the two squares in front empty; the jumped square occupied; the pawn
+// missing; the right rank for the side but a pawn of the wrong colour; and the genuine article next to them
+func epFieldCases(r *rng) []string {
+	var out []string
+	for n := 0; n < 24; n++ {
+		f := r.intn(8)
+		file := string(rune('a' + f))
+		kings := func(exclude map[int]bool) (int, int) {
+			for {
+				a, b := sq(r.intn(8), r.intn(8)), sq(r.intn(8), r.intn(8))
+				if a == b || exclude[a] || exclude[b] || (iabs(a&15-b&15) <= 1 && iabs(a>>4-b>>4) <= 1) {
+					continue
+				}
+				return a, b
+			}
+		}
+		for _, v := range []struct {
+			side  string
+			rank  int  // rank index of the ep target
+			pawn  byte // the pawn placed "behind" the target (seen from the side to move)
+			prank int
+		}{
+			{"w", 2, 'p', 1}, {"b", 5, 'P', 6}, // wrong rank for the mover, a pawn of the other side behind the target
+			{"w", 5, 'p', 4}, {"b", 2, 'P', 3}, // the genuine situation
+			{"w", 5, 'P', 4}, {"b", 2, 'p', 3}, // right rank, pawn of the wrong colour
+			{"w", 5, 'p', 6}, {"b", 2, 'P', 1}, // right rank, the pawn has not moved
+		} {
+			cells := map[int]byte{sq(f, v.prank): v.pawn}
+			ex := map[int]bool{sq(f, v.prank): true, sq(f, v.rank): true, sq(f, 2*v.rank-v.prank): true}
+			wk, bk := kings(ex)
+			cells[wk], cells[bk] = 'K', 'k'
+			if r.chance(1, 3) {
+				cells[sq(f, 2*v.rank-v.prank)] = "Nn"[r.intn(2)] // the square the pawn is said to have come from is occupied
+			}
+			out = append(out, fenFromMap(cells, v.side, "-", file+string(rune('1'+v.rank)), 1+r.intn(50)))
+		}
+	}
+	return out
+}
+
 var fenBoundary = []string{
 	"4k3/8/8/888888888888888888888888888888888/8/8/8/4K3 w - - 0 1", "4k3/8/8/88888888888888888888888888888888Q7/8/8/8/4K3 w - - 0 1",
 	"4k3/8/8/88888888888888888888888888888888/8/8/8/4K3 w - - 0 1", "4k3/8/8/8/8/8/8/4K388888888888888888888888888888888 w - - 0 1",
@@ -211,6 +252,9 @@ func init() {
 		}
 		for i := 0; i < n/20+20; i++ {
 			emit(overflowFen(r, valid[r.intn(len(valid))]))
+		}
+		for _, s := range epFieldCases(r) {
+			emit(s)
 		}
 		for i := 0; i < n/5; i++ {
 			l := r.intn(80)
